@@ -72,7 +72,7 @@ TEXTS = ['t', 'some text', 'T', '1', 'a b c']
 EMPTY_NODE_CHILDREN = True    # generator class "`{}` / `[]` directly followed by `>`" on / off (on since the repair "fix: the
                               # children of a text-only node are written also when its text is empty" of html.py element();
                               # on the unrepaired library the elements written below such a unit are not printed at all)
-EMPTY_NODE_IMPLICIT_CHILD = False   # sub-class of the above: an element WITHOUT NAME (implicit name) whose nearest written
+EMPTY_NODE_IMPLICIT_CHILD = True    # listed finding C01:implicit-name-below-empty-nameless-unit;   # sub-class of the above: an element WITHOUT NAME (implicit name) whose nearest written
                               # ancestor node is an empty `{}` / `[]` unit, e.g. `ol>{}>.c`.  Off: the library names it after the
                               # nameless unit (`div`) instead of after the enclosing element (`li`; `ol>{t}>.c` gives `li`): convert.py
                               # convert_element() moves the children of a text-only node up only when `elem.value` is truthy and `[]`
